@@ -1,21 +1,23 @@
 #!/venv/bin/python
-""" Builds known_findings.d/C13.json + known_findings/C13-*.cases.ndjson from reviewed `--propose-findings` runs.
+""" Builds known_findings.d/C13.json + known_findings/<entry>.cases.ndjson from reviewed `--propose-findings` runs.
     (manual tool; the check itself never writes findings)
 
     usage: tools/c13_findings.py <dir>
-    <dir> holds the stdout of `./check C13 --tier <quick|thorough> --propose-findings` for several trees:
-        U_<tier>.ndjson     unpatched tree
-        A_<tier>.ndjson     tree with all proposed_fixes/C13_*.diff applied
-        F5_<tier>.ndjson    only C13_refine_total_sort_key.diff            (optional)
-        F24_<tier>.ndjson   only C13_merge_spans_both_fragments.diff       (optional)
-        F26_<tier>.ndjson   only C13_merge_domain_list_keeps_every_domain.diff (optional)
-    (tools/with_mutant.sh <diff> ./check C13 --tier quick --propose-findings > F5_quick.ndjson ...)
+    <dir> holds the stdout of `./check C13 --tier <quick|thorough> --propose-findings` for several trees
+    (C13_FAMILIES=refine restricts a run to the refinement call sites):
+        HEAD_<tier>.ndjson    the current tree (all call sites)
+        A_<tier>.ndjson       the tree with all proposed_fixes/C13_*.diff applied (refinement call sites suffice)
+        F24_<tier>.ndjson     HEAD + C13_merge_spans_both_fragments.diff only            (optional, refinement)
+        F26_<tier>.ndjson     HEAD + C13_merge_domain_list_keeps_every_domain.diff only  (optional, refinement)
+    e.g. C13_FAMILIES=refine tools/with_mutant.sh proposed_fixes/C13_merge_spans_both_fragments.diff \
+             ./check C13 --tier quick --propose-findings > F24_quick.ndjson
 
     Attribution of a failing key (call site, clause, abstract input) of the refinement call sites:
-      - fails on the fully patched tree                         -> the permanent finding (P14)
-      - otherwise: every fixable entry whose fix alone cures it  (all three if none alone does)
-    so that the check stays quiet on the unpatched tree, on the fully patched tree (fix entries removed) and on
-    the trees with a single fix applied (that fix's entry removed).
+      - fails on the fully patched tree                          -> the permanent finding (P14)
+      - otherwise: every fixable entry whose fix alone cures it   (both if neither alone does)
+    so that the check stays quiet on the current tree, on the fully patched tree (fix entries removed) and on the
+    trees with a single fix applied (that fix's entry removed).  The other call sites have one fix each: all their
+    failing keys go to the entries of that fix.
 """
 import glob
 import json
@@ -24,18 +26,9 @@ import sys
 
 VERIF = os.path.dirname(os.path.dirname(os.path.abspath(__file__)))
 
-FIXABLE = {"F5": "P5-refine-sorts-set-by-start-only", "F24": "P24-merge-shrinks-hit",
-           "F26": "C13-N1-default-mode-keeps-last-domain-only"}
+FIXABLE = {"F24": "P24-merge-shrinks-hit", "F26": "C13-N1-default-mode-keeps-last-domain-only"}
 
 ENTRIES = {
-    "P5-refine-sorts-set-by-start-only": {
-        "ops": ["refine", "refine_neighbour"], "class": ["equal_starts"],
-        "what": "refine_hmmscan_results sorts a set of hits by query_start only: hits with equal starts are processed "
-                "in hash-seed/insertion dependent order and the result changes with it "
-                "(fix: proposed_fixes/C13_refine_total_sort_key.diff)",
-        "witness": "refine_hmmscan_results([QR([HSP('g','a',0,2,bitscore=1.,evalue=1e-5), HSP('g','a',0,5,bitscore=1.,"
-                   "evalue=1e-5)])], {'a': 4}) -> [a[0,5)] under PYTHONHASHSEED=0, [a[0,2)] under 1, 2, 3; expected: "
-                   "one result"},
     "P24-merge-shrinks-hit": {
         "ops": ["refine", "refine_neighbour"], "class": ["same_profile_nested_fragment"],
         "what": "HMMResult.merge takes the other fragment's end: merging a nested (or equal-start) fragment shrinks "
@@ -124,8 +117,8 @@ def compete_entry(row):
 def main(directory):
     assigned = {name: {} for name in ENTRIES}   # entry -> key -> row
     for tier in ("quick", "thorough"):
-        trees = {name: load(os.path.join(directory, f"{name}_{tier}.ndjson")) for name in ("U", "A", "F5", "F24", "F26")}
-        if trees["U"] is None:
+        trees = {name: load(os.path.join(directory, f"{name}_{tier}.ndjson")) for name in ("HEAD", "A", "F24", "F26")}
+        if trees["HEAD"] is None:
             continue
         patched = trees["A"] or {}
         every = {}
@@ -139,9 +132,7 @@ def main(directory):
                 cured = [FIXABLE[name] for name in FIXABLE if trees[name] is not None and key not in trees[name]]
                 singles = [name for name in FIXABLE if trees[name] is not None]
                 if not singles:     # no single-fix runs for this tier: attribute by clause / mode
-                    if row["clause"] == "order_independent":
-                        cured = [FIXABLE["F5"]]
-                    elif row["clause"] == "output_is_input_or_merge":
+                    if row["clause"] == "output_is_input_or_merge":
                         cured = [FIXABLE["F24"]]
                     elif row["op"] == "refine" and "same_profile_pair_too_far_to_merge" in row["features"]:
                         cured = [FIXABLE["F26"]]
@@ -157,8 +148,7 @@ def main(directory):
         cases_file = f"known_findings/{name}.cases.ndjson"
         with open(os.path.join(VERIF, cases_file), "w", encoding="utf-8") as handle:
             for key in sorted(rows):
-                handle.write(json.dumps({"key": key, "op": rows[key]["op"], "clause": rows[key]["clause"]},
-                                        sort_keys=True) + "\n")
+                handle.write(json.dumps({"key": key}) + "\n")
         ops = sorted(set(meta["ops"]) | {row["op"] for row in rows.values()})
         clauses = sorted({row["clause"] for row in rows.values()} | set(meta.get("clauses", [])))
         findings.append({"id": name, "properties": ["C13"], "ops": ops, "clauses": clauses, "what": meta["what"],
